@@ -110,6 +110,15 @@ def run(ctx):
         p = g.rbytes(rng, ln)
         pos = rng.choice([0, 0, 1, max(0, ln - 10), max(0, ln - 10), rng.randrange(-3, ln + 4)])
         c = g.rbytes(rng, rng.choice([10, 10, 10, 10, 0, 9, 11]))
+        r = rng.random()
+        if r < 0.15 and len(c) == 10 and ln >= 20:
+            # the payload carries further copies of the customer key outside the slot: only the slot is verified and blanked
+            q = rng.randrange(0, ln - 9)
+            p = p[:q] + c + p[q + 10:]
+        elif r < 0.25 and ln >= 12:
+            # a key that overlaps itself (one repeated byte) with the same byte next to the slot
+            c = bytes([rng.choice([0xAA, 0x00, 0x11])]) * 10
+            p = bytes(c[0] if rng.random() < 0.5 else b for b in p)
         ck.append((hx(g.gen_key(rng)), hx(c), pos, hx(p)))
     sp = lambda n: f"n{-n}" if n < 0 else str(n)
     e = ctx.correspond([f"ck.enc {k} {c} {sp(pos)} {p}" for k, c, pos, p in ck], "ck.enc")
